@@ -684,39 +684,69 @@ func (c *Ctx) rulesC09(la *LockAnalysis) {
 	c.floor("C09.base", 6)
 
 	// C09.store
-	slp := c.fn(pr + ":Server.storeLastPush")
-	if pc := c.fn(pr + ":Server.pushClient"); pc != nil && slp != nil {
-		stores := c.sitesIn(pc, funcKey(slp))
+	// the diff base is recorded by storeLastPush(data), or (helper inlined) by
+	// a direct assignment of Server.lastPushData
+	slp := c.fnOpt(pr + ":Server.storeLastPush")
+	type storeEv struct {
+		ins  ssa.Instruction
+		data ssa.Value
+	}
+	storeEvents := func(f *ssa.Function) []storeEv {
+		var out []storeEv
+		if slp != nil {
+			for _, s := range c.sitesIn(f, funcKey(slp)) {
+				out = append(out, storeEv{s, s.Common().Args[1]})
+			}
+		}
+		if fLPD != nil {
+			for _, w := range writesOfFieldIn(f, fLPD) {
+				if w.Kind == "assign" {
+					out = append(out, storeEv{w.Instr, w.Val})
+				}
+			}
+		}
+		return out
+	}
+	isStoreIn := func(f *ssa.Function) func(ssa.Instruction) bool {
+		evs := storeEvents(f)
+		return func(ins ssa.Instruction) bool {
+			for _, e := range evs {
+				if e.ins == ins {
+					return true
+				}
+			}
+			return false
+		}
+	}
+	if pc := c.fn(pr + ":Server.pushClient"); pc != nil {
+		stores := storeEvents(pc)
 		c.check(len(stores) >= 1, "C09.store", "pushClient stores the pushed snapshot", pc.Pos(), "no storeLastPush call")
 		var pushes []ssa.CallInstruction
 		pushes = append(pushes, c.sitesIn(pc, pr+":Server.pushUpdateMutations")...)
 		pushes = append(pushes, c.sitesIn(pc, pr+":Server.pushUpdateLatest")...)
 		for i, p := range pushes {
 			// every path from the push to a return passes storeLastPush or an `err != nil` true edge
-			okp := pathsPassOrErr(p, func(ins ssa.Instruction) bool {
-				call, ok := ins.(ssa.CallInstruction)
-				return ok && call.Common().StaticCallee() == slp
-			})
+			okp := pathsPassOrErr(p, isStoreIn(pc))
 			c.check(okp, "C09.store", "pushClient: successful push is followed by storeLastPush"+nth(i), p.Pos(), "a path from a successful push returns without recording the pushed snapshot: the next diff is computed from a stale base and is applied twice by the client")
 		}
 		for i, s := range stores {
 			// argument is the snapshot the diff was computed from (the DataLatest value)
-			arg := s.Common().Args[1]
+			arg := s.data
 			call, ok := arg.(*ssa.Call)
-			c.check(ok && calleeName(&call.Call) == "DataLatest", "C09.store", "pushClient stores the snapshot it diffed"+nth(i), s.Pos(), "storeLastPush must receive the tracer's DataLatest() value used for the diff; got "+render(arg))
+			c.check(ok && calleeName(&call.Call) == "DataLatest", "C09.store", "pushClient stores the snapshot it diffed"+nth(i), s.ins.Pos(), "storeLastPush must receive the tracer's DataLatest() value used for the diff; got "+render(arg))
 		}
 	}
-	if nm := c.fn(pr + ":Server.newMsgMutation"); nm != nil && slp != nil {
-		stores := c.sitesIn(nm, funcKey(slp))
+	if nm := c.fn(pr + ":Server.newMsgMutation"); nm != nil {
+		stores := storeEvents(nm)
 		good := len(stores) == 1
 		if good {
 			for _, r := range returnsOf(nm) {
-				if !dominatesInstr(stores[0], r) {
+				if !dominatesInstr(stores[0].ins, r) {
 					good = false
 				}
 			}
 			// same data param as used for calcUpdate
-			if p, ok := stores[0].Common().Args[1].(*ssa.Parameter); !ok || p != nm.Params[2] {
+			if p, ok := stores[0].data.(*ssa.Parameter); !ok || p != nm.Params[2] {
 				good = false
 			}
 		}
